@@ -620,8 +620,6 @@ def main(ck):
                 sig, (", libstdc++ assertion '%s'" % m.group(1)) if m else "", case_line(cc))
             key = "%s:abort:%s" % (cfg, op[0] if op else "?")
             ck.hits.append(dict(what=what, key=key, replay=dict(harness="h_c19", config=cfg, case=case_line(cc), extra=tail[-600:])))
-    # report the most readable witness first (int, small non-negative operands)
-    ck.hits.sort(key=lambda h: h.get("score", (True, True, True, 1 << 80)))
     for n in sorted(set(notes)):
         ck.notes.append(n)
     lap("run F,T + oracle")
@@ -646,6 +644,15 @@ def main(ck):
                         c["type"], c["init"], CPP_NAME[op[0]], op[4], ("%s at %s" % (m.group(2), m.group(1))) if m else tail[-200:]),
                     key="fiber-signed-overflow-ub",
                     replay=dict(harness="h_c19", config="FA", case=case_line(c), env=env)))
+    # report the most readable witness first (int, small non-negative operands)
+    ck.hits.sort(key=lambda h: h.get("score", (True, True, True, 1 << 80)))
+    # one witness per defect family first (runner prints the first few)
+    first, rest, seen_keys = [], [], set()
+    family = lambda h: re.sub(r":(pre|post)(inc|dec)$", ":incdec", h["key"])
+    for h in ck.hits:
+        (rest if family(h) in seen_keys else first).append(h)
+        seen_keys.add(family(h))
+    ck.hits[:] = first + rest
     lap("run FA")
     # ---------------------------------------------------------------- correspondence with the generated model
     validated = 0
